@@ -50,6 +50,7 @@ func c13Corpus() []c13Entry {
 	yes, no := mt.V("yes"), mt.V("no")
 	return []c13Entry{
 		{"print", one(t("a"), mt.P(mt.V("s")), t("b"), mt.P(mt.Op("~", mt.V("s"), mt.S("!"))), t("c"))},
+		{"print-literals", one(t("a"), mt.P(mt.I(1)), t("b"), mt.P(mt.Op("*", mt.I(2), mt.I(3))), t("c"), mt.P(mt.Op("~", mt.I(7), mt.V("s"))), t("d"), mt.P(mt.S("q")), t("e"), mt.P(mt.Paren{E: mt.I(4)}), t("f"))},
 		{"if", one(t("a"), mt.If{Conds: []mt.Expr{yes}, Bodies: [][]mt.Stmt{{t("T")}}}, t("b"))},
 		{"if-else", one(t("a"), mt.If{Conds: []mt.Expr{no}, Bodies: [][]mt.Stmt{{t("T")}}, HasElse: true, Else: []mt.Stmt{t("E")}}, t("b"))},
 		{"if-elseif-else", one(t("a"), mt.If{Conds: []mt.Expr{no, yes}, Bodies: [][]mt.Stmt{{t("T")}, {t("U")}}, HasElse: true, Else: []mt.Stmt{t("E")}}, t("b"))},
@@ -211,15 +212,18 @@ func (p *c13) check(rec *core.Recorder, class string, srcsPlain map[string]strin
 func (p *c13) Run(rec *core.Recorder, seed uint64, idx int, tier string) {
 	r := core.NewRand("C13", seed, idx)
 	corpus := c13Corpus()
-	nCorpus := len(corpus) * 256
+	nCorpus := len(corpus) * 256 * 2
 	if tier == "thorough" {
-		nCorpus = len(corpus) * 4096
+		nCorpus = len(corpus) * 4096 * 2
 	}
 	if idx < nCorpus {
-		per := nCorpus / len(corpus)
+		// the enumeration runs twice per entry: printed with blanks inside the delimiters, and without ({{-1}}, {%-if x-%})
+		tight := idx >= nCorpus/2
+		idx %= nCorpus / 2
+		per := nCorpus / 2 / len(corpus)
 		e := corpus[idx/per]
 		set := e.set()
-		pr := &mt.Printer{}
+		pr := &mt.Printer{Tight: tight}
 		srcs := pr.SourceSet(set)
 		// fixed padding per (entry, seed) so that the subset enumeration is over one template
 		pr2 := core.NewRand("C13pad", seed, idx/per*31+(idx%per)/1024)
@@ -257,7 +261,7 @@ func (p *c13) Run(rec *core.Recorder, seed uint64, idx int, tier string) {
 	}
 	// generated programs, random subsets
 	ts := GenTSet(r.Fork(), "w")
-	pr := &mt.Printer{}
+	pr := &mt.Printer{Tight: r.P(1, 4)}
 	srcs := pr.SourceSet(ts.Set)
 	main := ts.Entries[r.Intn(len(ts.Entries))]
 	ps := padPieces(r, pr.Pieces(ts.Set.T[main].Body))
